@@ -47,7 +47,11 @@ def extract_include(prog: list, rng: random.Random) -> list | None:
     run = lst[i:j]
     if any(st["k"] == "map" for st in run):
         return None
-    lst[i:j] = [{"k": "include", "f": f"inc{rng.randrange(1000)}.s", "b": run}]
+    used = {st["f"] for st, _, _ in walk(prog) if st["k"] == "include"}
+    name = f"inc{rng.randrange(1000)}.s"
+    while name in used:
+        name = f"inc{rng.randrange(100000)}.s"          # two extractions never share a file name
+    lst[i:j] = [{"k": "include", "f": name, "b": run}]
     return prog
 
 
